@@ -1,4 +1,5 @@
 """C18 — hugr.utils.BiMap stays a bijection (model: coq/model/BiMapM.v, spec: coq/spec/BiMapS.v)."""
+import dataclasses
 import itertools
 
 import fw
@@ -7,6 +8,108 @@ from fw import gZ, glist, gopt, gpair, gapp, gnat
 # model integers -> Python keys/values; includes the falsy ones the property names
 PYV = [0, "", (), 1, "a", (0,), "0", 2]
 OPS = ["InsL", "InsR", "DelL", "DelR", "SetItem", "DelItem"]
+
+
+# ---- equal-but-not-identical key/value objects (seeded C18-g) --------------------------------------------------
+# The model's keys are integers compared with Z.eqb; the implementation's keys are Python objects compared with
+# == / hash.  A model integer i of a case stands for ONE equivalence class of Python objects: a palette entry is a
+# list of builders whose results are all == (and hash-equal) to each other; builder 0 gives the canonical one.  A
+# case that carries "vars" picks, for every argument of every operation (and, with "look", for every lookup of
+# the observation), which builder makes the object, so that the map meets an equal object that is not the one it
+# stored: tuples / strings / large ints / frozen dataclass instances built at run time, subclass instances, and
+# the cross-type equals 0 == False == 0.0, 1 == True == 1.0.  Observed objects are mapped back by ==.
+class _Str(str):
+    __slots__ = ()
+
+
+class _Tup(tuple):
+    __slots__ = ()
+
+
+@dataclasses.dataclass(frozen=True)
+class _Port:                    # the shape of the keys hugr itself stores in a BiMap (frozen dataclass, eq by fields)
+    node: object
+    offset: object
+
+
+PAL0 = [                        # PYV and its equals; builder 0 returns the very PYV object (interned / constant)
+    [lambda: PYV[0], lambda: False, lambda: float("0"), lambda: -float("0")],
+    [lambda: PYV[1], lambda: _Str("")],
+    [lambda: PYV[2], lambda: _Tup(())],
+    [lambda: PYV[3], lambda: True, lambda: float("1")],
+    [lambda: PYV[4], lambda: _Str("a")],
+    [lambda: PYV[5], lambda: tuple([0]), lambda: tuple([False]), lambda: _Tup([0]), lambda: tuple([float("0")])],
+    [lambda: PYV[6], lambda: _Str("0")],
+    [lambda: PYV[7], lambda: float("2")],
+]
+PAL1 = [                        # every builder (also builder 0) makes a NEW object on every call
+    [lambda: tuple([0, 0]), lambda: tuple([False, float("0")]), lambda: _Tup([0, 0])],
+    [lambda: "".join(["o", "ut"]), lambda: _Str("out")],
+    [lambda: int("1" + "0" * 20), lambda: float("1e20")],
+    [lambda: _Port(0, 0), lambda: _Port(False, float("0"))],
+    [lambda: float("0"), lambda: -float("0"), lambda: False, lambda: int("0")],          # falsy
+    [lambda: _Port(1, 0), lambda: _Port(True, 0)],
+    [lambda: _Tup(()), lambda: tuple([])],                                                # falsy
+    [lambda: frozenset([1, 2]), lambda: frozenset([float("2"), True])],
+]
+PALS = [PAL0, PAL1]
+CANON = [[b[0]() for b in pal] for pal in PALS]
+for _pal, _can in zip(PALS, CANON):
+    assert len(_pal) == 8
+    for _i, _bs in enumerate(_pal):
+        for _b in _bs:          # one class: equal and hash-equal to the canonical object, unequal to every other class
+            assert _b() == _can[_i] and _can[_i] == _b() and hash(_b()) == hash(_can[_i])
+            assert [j for j in range(8) if _can[j] == _b()] == [_i]
+assert all(a is b for a, b in zip(CANON[0], PYV))
+
+
+def _show(x):
+    return type(x).__name__ + ":" + repr(x)
+
+
+class Objs:
+    """model integer <-> Python object for one case"""
+
+    def __init__(self, case):
+        self.p = case.get("pal", 0)
+        self.rot = case.get("rot", 0)
+        self.vars = case.get("vars")
+        self.look = case.get("look")
+        self.ivar = case.get("ivar")
+
+    def py(self, i, var=0):
+        bs = PALS[self.p][(i + self.rot) % 8]
+        return bs[var % len(bs)]()
+
+    def inv(self, x):
+        return (CANON[self.p].index(x) - self.rot) % 8
+
+    def args(self, t, idxs):
+        """the Python arguments of step t (argument j made by builder number octal digit j of vars[t])"""
+        n = self.vars[t] if self.vars is not None else 0
+        return [self.py(a, (n >> (3 * j)) & 7) for j, a in enumerate(idxs)]
+
+    def lookup(self, t, i):
+        return self.py(i, 0 if self.look is None else self.look + t + i)
+
+    def mapping(self, pairs, salt=0):
+        iv = self.ivar
+        return {self.py(k, 0 if iv is None else iv + salt + j): self.py(v, 0 if iv is None else iv + salt + j + 1)
+                for j, (k, v) in enumerate(pairs)}
+
+    def table(self, n):
+        return [[_show(b()) for b in PALS[self.p][(i + self.rot) % 8]] if self.vars is not None or self.look is not None
+                or self.ivar is not None else repr(self.py(i)) for i in range(n)]
+
+
+def sim_step(pairs, o):
+    """live pairs after a mutator (generator-side bookkeeping only: steers the eq-object stream to re-inserts)"""
+    if o[0] in ("InsL", "SetItem", "InsR"):
+        k, v = (o[1], o[2]) if o[0] != "InsR" else (o[2], o[1])
+        return [[a, b] for a, b in pairs if a != k and b != v] + [[k, v]]
+    if o[0] in ("DelL", "DelItem"):
+        return [[a, b] for a, b in pairs if a != o[1]]
+    return [[a, b] for a, b in pairs if b != o[1]]
 SEED_KINDS = ["dict", "OrderedDict", "UserDict"]      # the Python class of a seed mapping (the model sees a mapping)
 
 
@@ -65,9 +168,18 @@ class C18(fw.Prop):
             "after every step ALL maps and seeds are observed; exhaustive = every pair of steps after two "
             "constructions from one seed and every single step after three other construction prefixes over a "
             "2x2 universe, plus random histories; non-trivial = a map or a "
-            "seed is modified while another live map shares its origin or is its origin")
+            "seed is modified while another live map shares its origin or is its origin.  Equal-object histories: "
+            "a model key stands for a class of ==-equal Python objects (0 / False / 0.0; '' / a str subclass ''; "
+            "(0,) / tuple([0]) / (False,); run-time built tuples, strings, 10**20 / 1e20, frozen dataclass "
+            "instances, frozensets), every argument of every operation and every lookup of the observation is "
+            "built anew by a builder chosen per argument, observed objects are mapped back by ==; exhaustive = all "
+            "18^2 histories over 2x2 with the second step using other objects than the first, per palette and pair "
+            "of classes; random single-map histories (35 % of steps re-insert a live pair) and worlds")
     trusted = ["keys/values are modelled as an arbitrary type with decidable equality; Python's == / hash "
-               "on the sampled keys (0, '', (), 1, 'a', (0,), '0', 2) is assumed to be that equality"]
+               "on the sampled objects (0, '', (), 1, 'a', (0,), '0', 2, their cross-type / subclass equals, and the "
+               "run-time built tuples / strings / big ints / dataclass instances / frozensets of PAL1) is assumed "
+               "to be that equality (asserted pairwise at import of harness/props/c18.py); object identity of keys "
+               "is deliberately not in the model: no clause of the property depends on it"]
     trusted = trusted + ["identity of Python dict objects is modelled by heap addresses (model/BiMapHeap.v); a seed mapping "
                          "of class dict / OrderedDict / UserDict is the same mapping to the model"]
     assumptions = ["None is never used as a key or value (excluded by the property)"]
@@ -88,6 +200,29 @@ class C18(fw.Prop):
             W([two, [[0, 1], [1, 1]]], 2, [["New", 0, ["seed", 1]], ["New", 0, ["seed", 0]], ["New", 0, ["seed", 1]],
                                            ["SeedDel", 1, 0], ["New", 1, ["seed", 1]]],
               skinds=["UserDict", "OrderedDict"]),                                       # rejected construction changes nothing
+        ] + self._corpus_eqobj()
+
+    def _corpus_eqobj(self):
+        """seeded C18-g: 'is the displaced entry the one just written' decided by identity instead of equality"""
+        def H(ops, vars_, pal=1, nk=2, nv=2, init=(), **kw):
+            return {"nk": nk, "nv": nv, "init": [list(x) for x in init], "ops": ops, "pal": pal, "rot": 0, "vars": vars_,
+                    "look": 1, **kw}
+        w = W([[[0, 1]]], 1, [["New", 0, ["seed", 0]], ["Op", 0, ["InsL", 0, 1]]], nk=2, nv=2)
+        w.update({"pal": 1, "rot": 0, "vars": [0, 0], "look": 1, "ivar": 0})
+        return [
+            H([["InsL", 0, 1], ["InsL", 0, 1]], [0, 0]),                       # (0, 0) -> 'out' twice, tuple/str built at run time
+            H([["InsR", 0, 1], ["InsR", 0, 1]], [0, 0]),                       # the same pair again from the right side
+            H([["SetItem", 0, 1], ["SetItem", 0, 1]], [0, 0o01], pal=0),       # bm[0] = '' ; bm[False] = ''  (only the key differs)
+            H([["InsL", 0, 1], ["InsL", 0, 1]], [0, 0o10], pal=0),             # only the value differs ('' / a str subclass '')
+            H([["InsL", 0, 1], ["InsL", 3, 2], ["InsL", 0, 1]], [0, 0, 0], nk=4, nv=3),     # the demo: a second pair in between
+            H([["InsL", 3, 2]], [0], nk=4, nv=3, init=[[3, 2]], ivar=0),        # pair from the constructor: _Port(0, 0) -> 10**20
+            H([["InsL", 0, 1], ["DelL", 0]], [0, 1]),                          # deletion addressed with an equal object
+            H([["InsL", 0, 1], ["DelR", 1]], [0, 1]),
+            H([["InsL", 0, 1], ["InsL", 0, 0]], [0, 0o12]),                    # key update / value displacement with equal objects
+            H([["InsL", 0, 1], ["InsR", 1, 1]], [0, 0o21]),
+            w,                                                                   # pair taken from the caller's dict, re-linked
+            H([], [], init=[[0, 1], [1, 1]], ivar=0),                           # two keys -> equal values that are two objects: rejected
+            H([], [], pal=0, init=[[0, 0], [1, 0]], ivar=0),                    # {0: False, '': 0.0}: rejected
         ]
 
     def _gen_world(self, rng, tier, ctx):
@@ -137,7 +272,81 @@ class C18(fw.Prop):
         return cases
 
     def generate(self, rng, tier, ctx):
-        return self._gen_single(rng, tier, ctx) + self._gen_world(rng, tier, ctx)
+        # the three streams are drawn one after the other: a later stream never changes the cases of an earlier one
+        return self._gen_single(rng, tier, ctx) + self._gen_world(rng, tier, ctx) + self._gen_eqobj(rng, tier, ctx)
+
+    def _gen_eqobj(self, rng, tier, ctx):
+        """histories in which every operation and every lookup is given an object that is EQUAL to the stored key /
+        value but is not that object (palettes PAL0 / PAL1 above)"""
+        cases = []
+        u22 = all_ops(2, 2)
+        rots = (0, 4) if tier == "quick" else range(8)
+        for pal in (0, 1):
+            for rot in rots:
+                for h in itertools.product(u22, repeat=2):
+                    cases.append({"nk": 2, "nv": 2, "init": [], "ops": [list(o) for o in h], "pal": pal, "rot": rot,
+                                  "vars": [0o00, 0o11], "look": 1})
+        scopes = [f"eq-objects: all {len(u22)}^2 histories over 2x2 from the empty map, second step with other objects "
+                  f"than the first, for 2 palettes x {len(rots)} pairs of adjacent equivalence classes"]
+        if tier != "quick":
+            for pal in (0, 1):
+                for h in itertools.product(u22, repeat=3):
+                    cases.append({"nk": 2, "nv": 2, "init": [], "ops": [list(o) for o in h], "pal": pal, "rot": 4 * pal,
+                                  "vars": [0o00, 0o11, 0o22], "look": 1})
+            scopes.append(f"eq-objects: all {len(u22)}^3 histories over 2x2, three different objects per class, 2 palettes")
+        ctx.stats["exhaustive_scopes"] = ctx.stats.get("exhaustive_scopes", []) + scopes
+        n = 300 if tier == "quick" else 3000
+        for _ in range(n):
+            nk, nv = rng.randint(1, 6), rng.randint(1, 6)
+            ks = rng.sample(range(nk), rng.randint(0, nk))
+            if rng.random() < 0.9:
+                init = [[k, v] for k, v in zip(ks, rng.sample(range(nv), min(len(ks), nv)))]
+            else:
+                init = [[k, rng.randrange(nv)] for k in ks]
+            live, ops, u = [list(x) for x in init], [], all_ops(nk, nv)
+            for _t in range(rng.randint(1, 30)):
+                if live and rng.random() < 0.35:                   # the pair is already there
+                    k, v = rng.choice(live)
+                    o = rng.choice([["InsL", k, v], ["InsR", v, k], ["SetItem", k, v]])
+                else:
+                    o = list(rng.choice(u))
+                live = sim_step(live, o)
+                ops.append(o)
+            cases.append({"nk": nk, "nv": nv, "init": init, "ops": ops, "pal": rng.randrange(2), "rot": rng.randrange(8),
+                          "vars": [rng.randrange(64) for _o in ops], "look": rng.randrange(8), "ivar": rng.randrange(8)})
+        n = 80 if tier == "quick" else 600
+        for _ in range(n):
+            nk, nv = rng.randint(2, 5), rng.randint(2, 5)
+            ns, nm = rng.randint(1, 2), 2
+            seeds = []
+            for _s in range(ns):
+                ks = rng.sample(range(nk), rng.randint(1, nk))
+                seeds.append([[k, v] for k, v in zip(ks, rng.sample(range(nv), min(len(ks), nv)))])
+            mops, ops = all_ops(nk, nv), []
+            for t in range(rng.randint(2, 16)):
+                x = rng.random()
+                if x < (0.8 if t < 2 else 0.1):
+                    y = rng.random()
+                    src = ["seed", rng.randrange(ns)] if y < 0.7 else ["map", rng.randrange(nm)] if y < 0.9 else ["none"]
+                    ops.append(["New", rng.randrange(nm), src])
+                elif x < 0.8:
+                    if rng.random() < 0.4:                          # a pair of a seed: probably in the map already
+                        k, v = rng.choice(rng.choice(seeds))
+                        o = rng.choice([["InsL", k, v], ["InsR", v, k], ["SetItem", k, v]])
+                    else:
+                        o = list(rng.choice(mops))
+                    ops.append(["Op", rng.randrange(nm), o])
+                else:
+                    s_ = rng.randrange(ns)
+                    y = rng.random()
+                    ops.append(["SeedSet", s_, rng.randrange(nk), rng.randrange(nv)] if y < 0.7
+                               else ["SeedDel", s_, rng.randrange(nk)])
+            c = W(seeds, nm, ops, nk=nk, nv=nv,
+                  skinds=[rng.choice(SEED_KINDS) if rng.random() < 0.3 else "dict" for _s in range(ns)])
+            c.update({"pal": rng.randrange(2), "rot": rng.randrange(8), "vars": [rng.randrange(64) for _o in ops],
+                      "look": rng.randrange(8), "ivar": rng.randrange(8)})
+            cases.append(c)
+        return cases
 
     def _gen_single(self, rng, tier, ctx):
         cases = []
@@ -165,36 +374,39 @@ class C18(fw.Prop):
             cases.append({"nk": nk, "nv": nv, "init": init, "ops": ops})
         return cases
 
-    def _obs(self, bm, nk, nv):
+    def _obs(self, bm, nk, nv, ob=None, t=0):
+        ob = ob or Objs({})
         geti = []
         for k in range(nk):
             try:
-                geti.append(PYV.index(bm[PYV[k]]))
+                geti.append(ob.inv(bm[ob.lookup(t, k)]))
             except KeyError:
                 geti.append(None)
-        gl = lambda x: None if x is None else PYV.index(x)
+        gl = lambda x: None if x is None else ob.inv(x)
         return {
-            "items": [[PYV.index(k), PYV.index(v)] for k, v in bm.items()],
+            "items": [[ob.inv(k), ob.inv(v)] for k, v in bm.items()],
             "len": len(bm),
-            "iter": [PYV.index(k) for k in bm],
-            "getr": [gl(bm.get_right(PYV[k])) for k in range(nk)],
-            "getl": [gl(bm.get_left(PYV[v])) for v in range(nv)],
+            "iter": [ob.inv(k) for k in bm],
+            "getr": [gl(bm.get_right(ob.lookup(t + 1, k))) for k in range(nk)],
+            "getl": [gl(bm.get_left(ob.lookup(t + 2, v))) for v in range(nv)],
             "geti": geti,
         }
 
-    def _wobs(self, seeds, slots, nk, nv):
-        return {"seeds": [[[PYV.index(k), PYV.index(v)] for k, v in sd.items()] for sd in seeds],
-                "slots": [None if bm is None else self._obs(bm, nk, nv) for bm in slots]}
+    def _wobs(self, seeds, slots, nk, nv, ob=None, t=0):
+        ob = ob or Objs({})
+        return {"seeds": [[[ob.inv(k), ob.inv(v)] for k, v in sd.items()] for sd in seeds],
+                "slots": [None if bm is None else self._obs(bm, nk, nv, ob, t + j) for j, bm in enumerate(slots)]}
 
     def _observe_world(self, case):
         import collections
         from hugr.utils import BiMap, NotBijection
         nk, nv = case["nk"], case["nv"]
         mk = {"dict": dict, "OrderedDict": collections.OrderedDict, "UserDict": collections.UserDict}
-        seeds = [mk[kind]({PYV[k]: PYV[v] for k, v in sd}) for sd, kind in zip(case["seeds"], case["skinds"])]
+        ob = Objs(case)
+        seeds = [mk[kind](ob.mapping(sd, si)) for si, (sd, kind) in enumerate(zip(case["seeds"], case["skinds"]))]
         slots = [None] * case["nm"]
-        res = {"init": self._wobs(seeds, slots, nk, nv), "steps": []}
-        for o in case["ops"]:
+        res = {"init": self._wobs(seeds, slots, nk, nv, ob), "steps": []}
+        for t, o in enumerate(case["ops"]):
             r = "Done"
             try:
                 if o[0] == "New":
@@ -213,22 +425,22 @@ class C18(fw.Prop):
                 elif o[0] == "Op":
                     bm = slots[o[1]] if o[1] < len(slots) else None
                     if bm is not None:
-                        r = self._apply(bm, o[2])
+                        r = self._apply(bm, o[2][0], ob.args(t, o[2][1:]))
                 elif o[1] < len(seeds):
                     sd = seeds[o[1]]
+                    args = ob.args(t, o[2:])
                     if o[0] == "SeedSet":
-                        sd[PYV[o[2]]] = PYV[o[3]]
+                        sd[args[0]] = args[1]
                     elif o[0] == "SeedDel":
-                        sd.pop(PYV[o[2]], None)
+                        sd.pop(args[0], None)
                     else:
                         sd.clear()
             except Exception as e:  # anything else is an observable difference
                 r = "Other:" + type(e).__name__
-            res["steps"].append([r, self._wobs(seeds, slots, nk, nv)])
+            res["steps"].append([r, self._wobs(seeds, slots, nk, nv, ob, t + 1)])
         return res
 
-    def _apply(self, bm, o):
-        name, args = o[0], [PYV[a] for a in o[1:]]
+    def _apply(self, bm, name, args):
         try:
             if name == "InsL":
                 bm.insert_left(*args)
@@ -251,13 +463,14 @@ class C18(fw.Prop):
         if case.get("kind") == "world":
             return self._observe_world(case)
         nk, nv = case["nk"], case["nv"]
+        ob = Objs(case)
         try:
-            bm = BiMap({PYV[k]: PYV[v] for k, v in case["init"]})
+            bm = BiMap(ob.mapping(case["init"]))
         except NotBijection:
             return {"init": None, "steps": []}
-        res = {"init": self._obs(bm, nk, nv), "steps": []}
-        for o in case["ops"]:
-            name, args = o[0], [PYV[a] for a in o[1:]]
+        res = {"init": self._obs(bm, nk, nv, ob), "steps": []}
+        for t, o in enumerate(case["ops"]):
+            name, args = o[0], ob.args(t, o[1:])
             try:
                 if name == "InsL":
                     bm.insert_left(*args)
@@ -276,7 +489,7 @@ class C18(fw.Prop):
                 r = "KeyError"
             except Exception as e:  # anything else is an observable difference
                 r = "Other:" + type(e).__name__
-            res["steps"].append([r, self._obs(bm, nk, nv)])
+            res["steps"].append([r, self._obs(bm, nk, nv, ob, t + 1)])
         return res
 
     def _gobs(self, o):
@@ -362,17 +575,36 @@ class C18(fw.Prop):
         return False
 
     def describe(self, case, obs):
-        return {"input": case, "python_values": [repr(x) for x in PYV[:max(case["nk"], case["nv"])]], "observed": obs}
+        return {"input": case, "python_values": Objs(case).table(max(case["nk"], case["nv"])), "observed": obs}
 
     def signature(self, case, obs, ctx):
+        eq = "-eqobj" if any(case.get(f) is not None for f in ("vars", "look", "ivar")) else ""
         if case.get("kind") == "world":
-            return "bimap-world:" + ",".join(sorted({o[0] if o[0] != "Op" else o[2][0] for o in case["ops"]}))
-        return "bimap:" + ",".join(sorted({o[0] for o in case["ops"]}))
+            return f"bimap-world{eq}:" + ",".join(sorted({o[0] if o[0] != "Op" else o[2][0] for o in case["ops"]}))
+        return f"bimap{eq}:" + ",".join(sorted({o[0] for o in case["ops"]}))
 
     def shrink(self, case):
         ops = case["ops"]
+        vs = case.get("vars")
         for i in range(len(ops)):
-            yield {**case, "ops": ops[:i] + ops[i + 1:]}
+            c = {**case, "ops": ops[:i] + ops[i + 1:]}
+            if vs is not None:
+                c["vars"] = vs[:i] + vs[i + 1:]
+            yield c
+        if vs is not None:                                   # towards the literal objects, if the failure survives that
+            if any(vs):
+                yield {**case, "vars": [0] * len(vs)}
+                for i in range(len(vs)):
+                    if vs[i]:
+                        yield {**case, "vars": vs[:i] + [0] + vs[i + 1:]}
+            if case.get("pal", 0) or case.get("rot", 0):
+                yield {**case, "pal": 0, "rot": 0}
+                yield {**case, "rot": 0}
+            if not any(vs) and not case.get("pal", 0) and not case.get("rot", 0):     # the plain literal case
+                yield {k: v for k, v in case.items() if k not in ("vars", "look", "ivar", "pal", "rot")}
+        for f in ("look", "ivar"):
+            if case.get(f):
+                yield {**case, f: 0}
         if case.get("kind") == "world":
             for si, sd in enumerate(case["seeds"]):
                 for i in range(len(sd)):
@@ -386,9 +618,24 @@ class C18(fw.Prop):
 
     def distribution(self, cases, observations):
         d = {"histories": len(cases), "ops": {}, "keyerrors": 0, "notbijection_inits": 0, "max_len": 0,
-             "world_histories": 0, "world_steps": {}, "world_seed_kinds": {}, "world_rejected_constructions": 0}
+             "world_histories": 0, "world_steps": {}, "world_seed_kinds": {}, "world_rejected_constructions": 0,
+             "eqobj_histories": 0, "eqobj_palettes": {}, "eqobj_reinserts_of_a_present_pair": 0,
+             "eqobj_deletes_of_a_present_key": 0}
         for c, o in zip(cases, observations):
             d["max_len"] = max(d["max_len"], len(c["ops"]))
+            if c.get("vars") is not None:
+                d["eqobj_histories"] += 1
+                pr = "palette%d" % c.get("pal", 0)
+                d["eqobj_palettes"][pr] = d["eqobj_palettes"].get(pr, 0) + 1
+                if c.get("kind") != "world" and o["init"] is not None:
+                    cur = o["init"]["items"]
+                    for op, (r, ob) in zip(c["ops"], o["steps"]):
+                        if op[0] in ("InsL", "SetItem", "InsR"):
+                            kv = [op[1], op[2]] if op[0] != "InsR" else [op[2], op[1]]
+                            d["eqobj_reinserts_of_a_present_pair"] += kv in cur
+                        else:
+                            d["eqobj_deletes_of_a_present_key"] += r == "Done"
+                        cur = ob["items"]
             if c.get("kind") == "world":
                 d["world_histories"] += 1
                 for k in c["skinds"]:
